@@ -211,6 +211,21 @@ func parseWithParams(text string, params map[string]interface{}) (st influxql.St
 	return parseWithParams2(text, nil, params)
 }
 
+// parseWithParams3 binds params and then nil on the same parser.
+func parseWithParams3(text string, params map[string]interface{}) (st influxql.Statement, err error, pan bool, pv interface{}, stk string) {
+	pan, pv, stk = mon.Try(func() {
+		p := influxql.NewParser(strings.NewReader(text))
+		p.SetParams(params)
+		p.SetParams(nil)
+		var q *influxql.Query
+		q, err = p.ParseQuery()
+		if err == nil && q != nil && len(q.Statements) == 1 {
+			st = q.Statements[0]
+		}
+	})
+	return
+}
+
 // parseWithParams2 binds prior first (when non-nil) and then params on the
 // same parser: the second call replaces the bindings, so the outcome must be
 // that of a parser that only ever saw params.
@@ -392,6 +407,47 @@ func c07One(c *Ctx, idx int, local map[string]int64) {
 		r.Violation("panic", map[string]interface{}{"idx": idx, "input": tmpl2, "params": fmt.Sprintf("%#v", bad), "why": fmt.Sprint(pv2), "stack": stk2})
 		return
 	}
+	if err2 != nil {
+		// whatever text the failure carries is not a parameter name: binding
+		// it changes nothing (the failed placeholder is not looked up again
+		// under another name)
+		more := map[string]interface{}{}
+		for k, v := range bad {
+			more[k] = v
+		}
+		cands := []string{err2.Error()}
+		if pe, ok := err2.(*influxql.ParseError); ok {
+			cands = append(cands, pe.Found, pe.Message, strings.TrimPrefix(pe.Found, "$"))
+		}
+		if variant == 0 {
+			// the sigil is not part of the name
+			cands = append(cands, "$"+victim.name, `$"`+victim.name+`"`, " "+victim.name, strings.ToUpper(victim.name))
+		}
+		for _, cnd := range cands {
+			if _, taken := more[cnd]; !taken && cnd != "" && cnd != victim.name {
+				more[cnd] = victim.value
+			}
+		}
+		st3, err3, pan3, pv3, stk3 := parseWithParams2(tmpl2, nil, more)
+		r.Eval(1)
+		if pan3 {
+			r.Violation("panic", map[string]interface{}{"idx": idx, "input": tmpl2, "params": fmt.Sprintf("%#v", more), "why": fmt.Sprint(pv3), "stack": stk3})
+			return
+		}
+		if err3 == nil {
+			r.Violation("unbound-or-unbindable-accepted", map[string]interface{}{"idx": idx, "input": tmpl2, "params": fmt.Sprintf("%#v", more), "why": fmt.Sprintf("variant %d fails with %q, but is accepted as %s once the map also binds a key spelled like the failure text or like the name with its sigil", variant, err2.Error(), trunc(st3.String(), 200))})
+			return
+		}
+		local["must-error.with-look-alike-keys"]++
+	}
+	if variant == 0 && prior == nil && rg.Bool() {
+		// bindings replaced by no bindings at all
+		if st4, err4, pan4, _, _ := parseWithParams3(tmpl, params); !pan4 && err4 == nil {
+			r.Violation("unbound-or-unbindable-accepted", map[string]interface{}{"idx": idx, "input": tmpl, "params": "SetParams(valid map) then SetParams(nil)", "why": "after SetParams(nil) the placeholders are unbound, but the statement was accepted as " + trunc(st4.String(), 200)})
+			return
+		}
+		local["must-error.after-SetParams-nil"]++
+	}
 	if err2 == nil {
 		r.Violation("unbound-or-unbindable-accepted", map[string]interface{}{"idx": idx, "input": tmpl2, "params": fmt.Sprintf("%#v", bad), "rebinding": prior != nil, "why": fmt.Sprintf("variant %d (0 unbound, 1 unbindable value, 2 empty $; SetParams called twice: %v) was accepted as %s", variant, prior != nil, trunc(st2.String(), 200))})
 		return
@@ -401,7 +457,7 @@ func c07One(c *Ctx, idx int, local map[string]int64) {
 
 func checkC07(c *Ctx) (string, bool, []string) {
 	r := c.R
-	rule := "templates = generated statements of all 44 kinds whose name / string / regex / integer / float / duration / boolean tokens (1-3 per template, any position the grammar has) are replaced by $name or $\"quoted name\"; parameter maps bind the original value (all Go / JSON kinds: plain, typed object, json.Number, int64 duration) or a hostile value of the same kind (quotes, semicolons, comment markers, keywords, NUL, CR, NaN, Inf, int64 extremes); each compared with the literal-written form, or with the template's structure when the value cannot be written; plus unbound / unbindable / empty-placeholder variants that must fail, half of them on a parser whose bindings were first set to the valid map and then replaced (SetParams twice). Non-trivial = every case; distinct by (template, params)."
+	rule := "templates = generated statements of all 44 kinds whose name / string / regex / integer / float / duration / boolean tokens (1-3 per template, any position the grammar has) are replaced by $name or $\"quoted name\"; parameter maps bind the original value (all Go / JSON kinds: plain, typed object, json.Number, int64 duration) or a hostile value of the same kind (quotes, semicolons, comment markers, keywords, NUL, CR, NaN, Inf, int64 extremes); each compared with the literal-written form, or with the template's structure when the value cannot be written; plus unbound / unbindable / empty-placeholder variants that must fail, half of them on a parser whose bindings were first set to the valid map and then replaced (SetParams twice, also with nil); a failing binding must keep failing when the map also binds keys spelled like the failure text or like the name with its sigil. Non-trivial = every case; distinct by (template, params)."
 	assume := []string{"the literal form is rendered by the harness's own quoting, not by QuoteIdent / QuoteString", "a value of a kind that does not match the slot kind is not judged except for the must-error variants"}
 	if c.Replay != nil {
 		c07One(c, replayInt(c, "idx"), map[string]int64{})
